@@ -22,6 +22,8 @@ def run(tier, rep):
     # the same local name with and without a namespace prefix, at several positions
     rc.random_trees(rep, "C14", tier, rc.C14_TAGS, pool=["a", "ns:a", "x:a", "b"], ops=20, remove=0, kinds=["add", "add", "add", "text"],
                     n=200 if tier == "quick" else 3000, pool_all=True, tag="prefixed")
+    # chains deeper, and elements wider, than any counter or guard of a plausible implementation
+    rc.boundary_sessions(rep, "C14", tier, rc.C14_TAGS)
     rep.add(distinct_nontrivial=rep.coverage.get("trees_rendered", 0), rule=RULE, exhaustive=False,
             checker_cmd="tlc MC_ElementApi.tla (per pool) ; tlc RenderTrace.tla (judging)")
 
